@@ -1,0 +1,7 @@
+//go:build verif
+
+// Contracts for package properties, checked by /verif (govc). Comment-only.
+
+package properties
+
+//@ global Skipable immutable -- property key, only compared
